@@ -214,12 +214,18 @@ CHECKS = {
     ),
     "C02": dict(
         level="model_checking",
-        rule="random filters over container fields nested to depth 3 (index paths with [n], [\"k\"], [*], bool-array logic, any/all), "
+        rule="MC_C02: every full-depth index path over five container fields x a value pool (absent, empty, singleton, ragged), with the "
+             "in-model theorem that the engine's three index strategies (WfIndex, incl. the explicit stack of MapEachIterator) yield the L1 "
+             "element sequence. MC_C02b: any/all over [not] x o1 y [o2 z] for all operators, and Q(x) / Q(not x), on every assignment of "
+             "boolean arrays of length 0..2 or absence to x, y, z (512 contexts), with the in-model theorem that WfEval equals an "
+             "independently written L1 (shortest operand, element-wise, binding strength, quantifier on an absent value). "
+             "Random filters over container fields nested to depth 3 (index paths with [n], [\"k\"], [*], bool-array logic, any/all), "
              "each executed on random contexts (empty/ragged/absent containers), recorded and validated by Trace_Lang against "
              "GetPath/Flatten/EvalV (L1)",
         assumptions=["token renderer and abs() projection of the harness"],
         stages=[
             mc("index-paths", "MC_C02.tla", "MC_C02.cfg"),
+            mc("elementwise-logic", "MC_C02b.tla", "MC_C02b.cfg", workers=4),
             lang("containers", "c02", 4000, 120000, ["--nctx", "6", "--depth", "3", "--nestpct", "45"], shards=SH),
             lang("rich", "rich", 2000, 60000, ["--nctx", "5", "--depth", "3"], shards=SH, seed_off=1),
         ],
